@@ -26,6 +26,9 @@ func GenSchedule(t *rapid.T, maxAt int) simrt.Schedule {
 	}
 	if mode >= 1 {
 		s.SelMode = uint64(rapid.IntRange(0, 6).Draw(t, "sched.selmode"))
+		if rapid.IntRange(0, 1).Draw(t, "sched.maporder") == 1 {
+			s.MapSeed = uint64(rapid.IntRange(1, 1<<30).Draw(t, "sched.mapseed"))
+		}
 	}
 	return s
 }
